@@ -321,12 +321,13 @@ func init() {
 	add(Spec{
 		PropSpec: vlib.PropSpec{
 			ID: "C07", Level: "exploration",
-			Rule: "buffers phase: every serializable layer that decoding any corpus input (incl. mutated inputs whose packet ends in an error layer) produced is written, for each of the four FixLengths/ComputeChecksums combinations, from identical deep copies into: a fresh buffer, a buffer pre-sized with PRNG (prepend, append) sizes, a pre-sized (0,0) buffer, a buffer that held 2048+2048 bytes of 0xAA/0x55 and was cleared, two poisoned buffers (a SerializeBuffer implementation that fills every returned slice with 0xA5 resp. 0x5A - a never-written byte differs between the two), and the same struct twice. A panic in any of them is a violation (keyed by panic site); all must agree on error-or-not and, when no error, on the bytes. Built with -d=checkptr. Non-trivial = output longer than payload+4; distinct by (type, output, payload length).",
+			Rule: "buffers phase: every serializable layer that decoding any corpus input (incl. mutated inputs whose packet ends in an error layer) produced is written, for each of the four FixLengths/ComputeChecksums combinations, from identical deep copies into: a fresh buffer, a buffer pre-sized with PRNG (prepend, append) sizes, a pre-sized (0,0) buffer, a buffer that held 2048+2048 bytes of 0xAA/0x55 and was cleared, two poisoned buffers (a SerializeBuffer implementation that fills every returned slice with 0xA5 resp. 0x5A - a never-written byte differs between the two), and the same struct twice. A panic in any of them is a violation (keyed by panic site); all must agree on error-or-not and, when no error, on the bytes. fields phase (layer values built through public fields): on each decoded layer 1-3 exported fields chosen by a PRNG (at any depth: numbers set to 0/1/max/random, bools flipped, byte slices and lists set to nil, shortened, cut, doubled or replaced by 1..70000 elements, pointers set to nil or to a new zero value, strings randomised) are changed - the same change, replayed from its seed, on four independent copies - and the value is written with a PRNG option set over the decoded payload or a payload of 0/1/3/1473/65535/65536/70001 bytes into a fresh, a dirty and the two poisoned buffers: no panic, same error-or-not, same bytes. Built with -d=checkptr. Non-trivial = output longer than payload+4; distinct by (type, output, payload length).",
 			Assumptions: []string{"layer values built through public fields are represented by the values decoding of mutated inputs produces (which includes out-of-range and inconsistent length fields)"},
 			Phases: []vlib.Phase{
 				{Name: "buffers", Bin: "vchild", Quick: 16, Thorough: 16},
+				{Name: "fields", Bin: "vchild", Quick: 16, Thorough: 16},
 			},
-			Require: []string{"serializations_compared"},
+			Require: []string{"serializations_compared", "constructed_values_serialized"},
 		},
 		LevelText: "Runtime monitoring: panic monitor plus a differential oracle over serialize-buffer histories, including poisoned buffers that expose requested-but-unwritten bytes (MSan-style), on layer values harvested from decoding hostile inputs; checkptr instrumentation.",
 		LevelNote: trusted,
